@@ -287,7 +287,7 @@ func apiSequences(c *Ctx, kind string, nSeq, maxLen int) {
 		buckets = []string{"bk1", "bk2", "bk3", "bk1", "bk2", "nosuch"}
 		keys = []string{"a", "a/b", "a/b/c", "ab", "a.b", "b", "b/", "a//b", "../bk2/a", "./a", "a/./b", "a/..", "..", ".", "é", "", "d/e/f/g", "d/e"}
 	}
-	prefixes := []string{"", "a", "a/", "a/b", "a/b/", "b", "bucket/", "c", "a.", "/"}
+	prefixes := []string{"", "a", "a/", "a/b", "a/b/", "b", "bucket/", "c", "a.", "/", "d/", "d/e", "d/e/", "d/e/f/", "a/b/c/", "a//", "./", "a/./", "../", "d/x/"}
 	metas := []map[string]string{nil, {"Content-Type": "text/plain"}, {"X-Amz-Meta-A": "1", "Content-Type": "x/y"}, {"X-Amz-Meta-B": ""}, {"X-Amz-Acl": "private"}}
 	for s := 0; s < nSeq; s++ {
 		inst, err := impl.New(kind, c.Tmp)
@@ -334,9 +334,6 @@ func apiSequences(c *Ctx, kind string, nSeq, maxLen int) {
 				a.copy(pickB(), pickK(), pickB(), pickK(), metas[c.Rng.Intn(len(metas))])
 				interesting++
 			default:
-				if isFs {
-					continue // the listings of the fs backends are not part of Model/FsBackend (C03 compares them with the specification)
-				}
 				a.list(pickB(), c.Rng.Intn(3) > 0, prefixes[c.Rng.Intn(len(prefixes))], c.Rng.Intn(2) == 0, []string{"/", "/", ".", "b"}[c.Rng.Intn(4)])
 			}
 		}
